@@ -361,7 +361,8 @@ def steps(draw, pal_settings, pal_langs):
             langs, region, locs = None, None, draw(st.sampled_from([["fr-BE"], ["en-AU"], ["fr-CA"], ["es-MX"], ["de-AT"]]))
         sd = settings_()
         if langs is None and locs is None and sd:
-            sd = draw(st.sampled_from(SETTINGS[:12]))
+            # autodetection with a new settings hash rebuilds the regexes of all 205 locales (~1.3 s): mostly default settings
+            sd = draw(st.sampled_from([None, None, None, SETTINGS[4], SETTINGS[9]]))
         return ["parse", draw(st.sampled_from(STRINGS)), draw(st.sampled_from(FORMATS)), langs, locs, region, sd]
     if k <= 9:
         return ["new_parser", draw(st.integers(0, 3)), langs_(allow_none=False), None, draw(st.sampled_from(REGIONS)), draw(st.booleans()),
@@ -512,4 +513,4 @@ def stages(ctx):
     return [Stage("triples_cold", "hyp", strategy=triples(), examples=ctx.n(160, 4000)),
             Stage("histories_cold", "hyp", strategy=histories(ctx.n(10, 50)), examples=ctx.n(48, 1200)),
             Stage("triples_warm", "hyp", strategy=triples(), examples=ctx.n(1600, 40000), check=check_warm),
-            Stage("histories_warm", "hyp", strategy=histories(ctx.n(14, 50)), examples=ctx.n(320, 8000), check=check_warm)]
+            Stage("histories_warm", "hyp", strategy=histories(ctx.n(14, 50)), examples=ctx.n(200, 8000), check=check_warm)]
